@@ -33,7 +33,7 @@ ASSUMPTIONS = [
 FEATURES = ['sibling_prefix', 'outside_tree', 'link_in_out_file', 'link_in_out_dir', 'link_in_in',
             'link_out_in_dir', 'chain', 'dangling', 'ext_only_link', 'dir_beside_tex', 'latex_ext',
             'nested_include', 'link_to_base', 'deep_base', 'abs_links', 'dir_tex_link', 'base_dot_tex',
-            'case_sibling', 'dot_links', 'out_link_to_nest']
+            'case_sibling', 'dot_links', 'out_link_to_nest', 'dotdot_names']
 PERSISTENT_FEATURES = ['loop', 'unreadable_file', 'unsearchable_dir', 'non_utf8', 'long_name', 'long_chain']
 
 
@@ -173,6 +173,15 @@ def gen_layout(rng, batch):
         b.d(base + '/x')
         b.f(base + '/x.tex')
         b.f(base + '/x/y.tex')
+    if 'dotdot_names' in feats:
+        # inside names that merely *start* with two dots
+        b.f(base + '/..appendix.tex')
+        b.d(base + '/..drafts')
+        b.f(base + '/..drafts/d.tex')
+        b.f(base + '/...tex')
+        b.l(base + '/alias.tex', '..appendix.tex')
+        if rng.random() < 0.5:
+            outs.append(b.f(parent + '/..appendix.tex') and parent + '/..appendix.tex')
     if 'dir_tex_link' in feats:
         # a directory beside a link of the same name plus extension, pointing outside
         b.d(base + '/chap')
@@ -303,7 +312,8 @@ def gen_name(rng, fs, res, basenode, layout):
                            'sub/../.', '..', '../' + bn, 'here/../secret', 'here/../secret.tex', 'up/secret',
                            'sub/top/../secret', 'lnkd/backf', 'lnkd/back2', '../out/backf', 'lnkd/../secret',
                            'li/../../secret', '../' + bn.swapcase() + '/secret', '../' + bn.lower() + '/secret',
-                           '../' + bn.upper() + '/a.tex', 'lnkd/../' + bn.upper() + '/secret'])
+                           '../' + bn.upper() + '/a.tex', 'lnkd/../' + bn.upper() + '/secret',
+                           '..appendix', '..appendix.tex', '..drafts/d', 'alias', '..', '...tex', '../..appendix'])
         return name
     # mutations
     x = rng.random()
